@@ -33,9 +33,9 @@ MANIFEST = {
             "round as a polynomial identity over GF(2) in the 320 state bits, prologue and epilogue are inverse "
             "mappings, so ascon_permute(first_round) is rounds first_round..11 for every state; the masked x86-64 "
             "permutations are proved under C10.D5), D5i the same for i386 and D5r for RISC-V 32E/32I/64I, AArch64, ARMv6, "
-            "ARMv6-M, ARMv7-M, Xtensa, m68k and ColdFire (dispatch, prologue/epilogue inverse, every round block = "
+            "ARMv6-M, ARMv7-M, Xtensa, m68k, ColdFire and AVR5 (dispatch / loop control, prologue/epilogue inverse, every round block = "
             "specification round under the shared C layout, callee-saved registers / stack pointer / return address "
-            "restored, accesses inside the state and the own frame); the AVR code is decided only by D1/D2",
+            "restored, accesses inside the state and the own frame); the masked AVR code is decided only by D1/D2",
     "note": "D1 executes the generator programs (code generators, not code under verification) exactly as "
             "`make generate` does and compares text; D2 inspects assembler output with llvm-readelf; D3/D4 "
             "trust the AT&T-syntax model of the ~30 instruction forms the generators emit (anything else is "
@@ -69,7 +69,8 @@ def rule_risc_rounds(rep, tier):
                   "under the shared C layout (polynomial identity); dispatch, prologue/epilogue and ABI registers")
     for name in asm_risc.BACKENDS:
         asm_risc.rule_rounds(rep, rid, name)
-    rep.floor_discharged(rid, 17 * len(asm_risc.BACKENDS))
+    asm_risc.rule_avr_rounds(rep, rid)
+    rep.floor_discharged(rid, 17 * len(asm_risc.BACKENDS) + 14)
 
 
 def _run(rep, tier):
@@ -78,8 +79,7 @@ def _run(rep, tier):
         "captured and compared to the checked-in files.  D2: each .S unit of the compilation database "
         "assembled with its real flags, sections listed by llvm-readelf.  D3/D4: abstract interpretation of "
         "the preprocessed x86-64 assembly for every MAX_SHARES variant.")
-    rep.undecided = ("the AVR assembly beyond D1/D2; memory footprint of the non-x86 files beyond what the "
-                     "interpreted ascon_permute touches; the masked AVR code")
+    rep.undecided = ("the masked AVR assembly beyond D1/D2; functions of the non-x86 files other than ascon_permute")
     rule_generators(rep)
     rule_execstack(rep)
     asm_x86._report(rep, "C18.D3a", tier, "abi",
